@@ -17,7 +17,8 @@
 using namespace sim;
 
 extern "C" volatile uint32_t sim_block_once_calls, sim_block_guard_calls, sim_block_mutex_calls, sim_block_waits,
-    sim_block_futex_waits, sim_block_futex_wakes, sim_block_futex_lost;  // blockwrap.cpp
+    sim_block_futex_waits, sim_block_futex_wakes, sim_block_futex_lost, sim_block_cond_waits, sim_block_cond_signals,
+    sim_block_cond_lost;  // blockwrap.cpp
 
 static const uint32_t kUnlimited = 0xFFFFFFFFu;
 static const uint64_t kSpinJump = 1000000000ull;  // == kTablesSpinLimit
@@ -584,7 +585,7 @@ static Result execute(const Plan& p, Stats& st) {
   g_spin_fn = spin_fn;
   g_premature_ready = 0;
   uint32_t tsan0 = g_tsan_reports;
-  const uint32_t futex_lost0 = sim_block_futex_lost;
+  const uint32_t futex_lost0 = sim_block_futex_lost + sim_block_cond_lost;
   std::vector<ThreadRec> recs(n);
   {
     std::vector<std::thread> th;
@@ -601,7 +602,7 @@ static Result execute(const Plan& p, Stats& st) {
     if (status == SCH_OVER_BUDGET) {
       res.violation = true;
       res.vclass = "liveness-budget";
-      if (sim_block_futex_lost != futex_lost0) res.detail = "a thread blocked in a futex wait (std::atomic::wait) was never woken; ";
+      if (sim_block_futex_lost + sim_block_cond_lost != futex_lost0) res.detail = "a thread blocked in a futex wait (std::atomic::wait) or on a condition variable was never woken; ";
       res.sig = "steps>" + std::to_string(cfg.budget);
       res.detail += "operations did not complete within " + std::to_string(cfg.budget) + " scheduler steps (fair drain engaged afterwards)";
     }
@@ -682,12 +683,14 @@ static Result execute(const Plan& p, Stats& st) {
   st.add("sim_spin_iterations", spin_adv);
   st.add("witness_runs", g_witness_runs.exchange(0));
   {  // blocking primitives met by simulated threads (zero on the pinned tree: ada uses none)
-    static uint32_t last[7] = {0, 0, 0, 0, 0, 0, 0};
-    uint32_t now[7] = {sim_block_once_calls, sim_block_guard_calls, sim_block_mutex_calls, sim_block_waits,
-                       sim_block_futex_waits, sim_block_futex_wakes, sim_block_futex_lost};
-    static const char* const nm[7] = {"block.once_calls", "block.static_guard_calls", "block.mutex_lock_calls", "block.waits_turned_into_yields",
-                                      "block.futex_waits", "block.futex_wakes", "block.futex_lost_wakeups"};
-    for (int i = 0; i < 7; i++) {
+    static uint32_t last[10] = {0, 0, 0, 0, 0, 0, 0, 0, 0, 0};
+    uint32_t now[10] = {sim_block_once_calls, sim_block_guard_calls, sim_block_mutex_calls, sim_block_waits,
+                        sim_block_futex_waits, sim_block_futex_wakes, sim_block_futex_lost,
+                        sim_block_cond_waits, sim_block_cond_signals, sim_block_cond_lost};
+    static const char* const nm[10] = {"block.once_calls", "block.static_guard_calls", "block.mutex_lock_calls", "block.waits_turned_into_yields",
+                                       "block.futex_waits", "block.futex_wakes", "block.futex_lost_wakeups",
+                                       "block.cond_waits", "block.cond_signals", "block.cond_lost_signals"};
+    for (int i = 0; i < 10; i++) {
       if (now[i] != last[i]) st.add(nm[i], now[i] - last[i]);
       last[i] = now[i];
     }
